@@ -36,15 +36,23 @@ class _FaultyReader:
         self.mode = 'rb'
 
     def read(self, n=-1):
+        if n is None or n < 0:
+            # read-to-EOF is never short on a real file object: deliver everything, chunk by chunk
+            chunks = []
+            while True:
+                c = self.read(1 << 16)
+                if not c:
+                    return b''.join(chunks)
+                chunks.append(c)
         if self._eio is not None and self._n >= self._eio:
             self._fs.fired['eio'] += 1
             raise InjectedOSError(errno.EIO, 'Input/output error (injected)', self._path)
         if self._short:
-            n = self._short if n is None or n < 0 else min(n, self._short)
+            n = min(n, self._short)
             self._fs.fired['short'] += 1
         if self._eio is not None:
             room = self._eio - self._n
-            n = room if n is None or n < 0 else min(n, room)
+            n = min(n, room)
             if n == 0:
                 self._fs.fired['eio'] += 1
                 raise InjectedOSError(errno.EIO, 'Input/output error (injected)', self._path)
